@@ -98,6 +98,9 @@ const hangAfter = 21 * time.Second
 // arming, i.e. microseconds of CPU, which the lowest priority still provides within seconds.
 var lowPriorityOnceArmed = false
 
+// replaying: the case runs in the foreground process of `replay`; a hang ends it with exit 1.
+var replaying = false
+
 func setNice(n int) {
 	ents, _ := os.ReadDir("/proc/self/task")
 	for _, e := range ents {
@@ -117,6 +120,10 @@ func (r *caseRun) arm(kind string) {
 	idx, t0 := r.idx, r.t0
 	r.wd = time.AfterFunc(hangAfter, func() {
 		marker("SELFHANG i=%d t=%.3f", idx, time.Since(t0).Seconds())
+		if replaying {
+			fmt.Printf("  the call has not returned %.0f s after the cause was in place: HANG\n", hangAfter.Seconds())
+			os.Exit(1)
+		}
 		os.Exit(3)
 	})
 }
